@@ -255,12 +255,28 @@ func findSuperset(S lr.StateMap, I lr.ItemSet) lr.State {
 	}
 
 	for i := range S {
-		if s := lr.State(i); S.ItemSet(s).IsSuperset(I) {
+		if s := lr.State(i); S.ItemSet(s).IsSuperset(I) && sameCore(S[s], I) {
 			return s
 		}
 	}
 
 	return lr.ErrState
+}
+
+// sameCore reports whether every item of a state has its LR(0) core (production and dot position) in the item set I.
+// Together with the superset test, it ensures the state and I have identical cores,
+// so a state whose kernel strictly contains the kernel of I is not mistaken for GOTO's target.
+func sameCore(items []lr.Item, I lr.ItemSet) bool {
+	for _, item := range items {
+		core := item.(*lr.Item1).Item0()
+		if !I.AnyMatch(func(i lr.Item) bool {
+			return i.(*lr.Item1).Item0().Equal(core)
+		}) {
+			return false
+		}
+	}
+
+	return true
 }
 
 // scopedItem represents an individual item within an item set.
